@@ -34,6 +34,8 @@ def gen(rng, tier):
     ctx.weights = {"random": 0.0, "rechunk": 4.0, "reduction": 4.0, "binary": 4.5, "setitem_fn": 1.2}
     ctx.p_auto_chunks = rng.choice([0.1, 0.3, 0.5])
     ctx.allow_unknown = rng.random() < 0.5
+    ctx.p_fine_chunks = rng.choice([0.0, 0.0, 0.4])
+    ctx.p_reduction_twin = rng.choice([0.15, 0.5])
     recipe, targets = gen_programs(rng, ctx, tier)
     keys = sorted(H.CONFIG_DOMAIN)
     cfg_keys = [k for k in keys if rng.random() < 0.6] or keys
